@@ -13,7 +13,7 @@ RULE = (
     "distinct (model cell, parameter, phase in {memoryless, with-memory}, missing pattern) tuples compared at least once"
 )
 REQUIRED = {"msteps": 300, "cmp_pop_mean": 300, "cmp_ind_mean": 300, "cmp_ind_std_burn_in": 100, "cmp_ind_std_sa": 100,
-            "cmp_noise_scalar": 50, "cmp_noise_diagonal": 50, "cmp_mixture_probs": 10, "cmp_together": 100, "boundary_iterations_checked": 15, "mixture_steps_with_a_nearly_empty_cluster": 3}
+            "cmp_noise_scalar": 50, "cmp_noise_diagonal": 50, "cmp_mixture_probs": 10, "cmp_together": 100, "boundary_iterations_checked": 15, "mixture_steps_with_a_nearly_empty_cluster": 3, "fits_on_an_algorithm_object_already_run_once": 10}
 ASSUMPTIONS = [
     "float32 sums over <= ~500 observations: rtol 2e-4, atol 1e-6",
     "mixture model: per-cluster means/stds use a responsibility weighting the documentation does not pin - only probabilities (= mean "
@@ -28,7 +28,7 @@ def shards(tier, seed):
     return [{"name": f"mstep-{k}", "k": k, "n": 5 if q else 70, "budget_s": 150 if q else 1500} for k in range(16)]
 
 
-def fit_with_probe(model, ds, settings_kw, on_step=None, before_suffstats=None, reconfigure=None):
+def fit_with_probe(model, ds, settings_kw, on_step=None, before_suffstats=None, reconfigure=None, prerun=None):
     """What BaseModel.fit does, but with the probe installed on the algorithm instance.
     `reconfigure`: parameters given to the documented ``algorithm.load_parameters`` between construction and run."""
     from leaspy.algo import AlgorithmSettings, algorithm_factory
@@ -44,6 +44,16 @@ def fit_with_probe(model, ds, settings_kw, on_step=None, before_suffstats=None, 
             algo.load_parameters(dict(reconfigure))
     if not model.is_initialized:
         model.initialize(ds)
+    if prerun is not None:
+        # the algorithm object has already served: a complete run on another model (whatever it leaves in the object must not matter)
+        import contextlib as _c
+        import io as _io
+
+        m0, d0 = prerun
+        if not m0.is_initialized:
+            m0.initialize(d0)
+        with _c.redirect_stdout(_io.StringIO()):
+            algo.run(m0, d0)
     probe = MStepProbe(algo, model, on_step=on_step, before_suffstats=before_suffstats)
     import contextlib
     import io
@@ -209,7 +219,17 @@ def run_shard(spec, ctx):
                         return
 
         try:
-            fit_with_probe(model, ds, dict(n_iter=n_iter, n_burn_in_iter=nb, n_burn_in_iter_frac=None, seed=int(rng.integers(1 << 30))), on_step=on_step)
+            prerun = None
+            if (spec["k"] + i) % 3 == 2 and "dataset" not in case:
+                try:
+                    m0 = gen.make_model(kind, dim, src, noise, **kw) if noise else gen.make_model(kind, dim, src, **kw)
+                    m0.initialize(ds)
+                    prerun = (m0, ds)
+                    case["algorithm_object_already_run_once"] = True
+                    ctx.count("fits_on_an_algorithm_object_already_run_once")
+                except Exception:
+                    prerun = None
+            fit_with_probe(model, ds, dict(n_iter=n_iter, n_burn_in_iter=nb, n_burn_in_iter_frac=None, seed=int(rng.integers(1 << 30))), on_step=on_step, prerun=prerun)
         except LeaspyConvergenceError:
             ctx.count("fit_aborted_by_convergence_guard")
         except Exception as e:
